@@ -71,7 +71,8 @@ static int has_cs(const uint8_t *b, size_t from, size_t to) { /* "://" inside [f
 
 void harness(void) {
 	V_BEGIN();
-	uint8_t *buf = (uint8_t *)v_alloc(TOTAL);
+	static uint8_t buf_store[TOTAL];	/* exactly sized object (static: CBMC constant-propagates through it, unlike malloc) */
+	uint8_t *buf = buf_store;
 	size_t pos = 0, si = 0;
 
 	T_EMIT(buf, pos, T_METHOD, IN.sym, si);
